@@ -3,6 +3,7 @@
 package llrp
 
 import (
+	"bytes"
 	"context"
 	"encoding/binary"
 	"encoding/hex"
@@ -18,7 +19,7 @@ import (
 
 // C06 — version negotiation.  One request line per session:
 //
-//	<sid> <cmax> <r1> <r2> [T<ms>] [C] [K1] [K2] [LA] [V<g><n><l>] [EN0|ES0|EN1|ES1|EN2|ES2] [P=<step>,<step>,…]
+//	<sid> <cmax> <r1> <r2> [T<ms>] [C] [K1] [K2] [D1:<n>|D1:<pattern>] [D2:<n>|D2:<pattern>] [LA] [V<g><n><l>] [EN0|ES0|EN1|ES1|EN2|ES2] [P=<step>,<step>,…]
 //
 // cmax: 1|2 (WithVersion).  r1/r2: how the scripted reader answers GET_SUPPORTED_VERSION /
 // SET_PROTOCOL_VERSION:
@@ -35,6 +36,18 @@ import (
 // T<ms>: the client is built WithTimeout(ms).  C: on N the reader closes the connection.
 // K1: the reader sends a KEEPALIVE when it has received GET_SUPPORTED_VERSION and answers the
 // query only after the KEEPALIVE_ACK has arrived; K2: the same for SET_PROTOCOL_VERSION.
+// D1:<n>: a reader that stops reading for a while.  When it has received GET_SUPPORTED_VERSION (and,
+// with K1, the acknowledgement of that KEEPALIVE) it sends n KEEPALIVEs and then its answer to the
+// query WITHOUT reading anything, waits until the client has acted on the answer (Connect has gone
+// on / returned, or the client's version has changed, or 25 ms), and only then reads again.  The
+// client's write loop is blocked in the first acknowledgement meanwhile (net.Pipe), the other n-1
+// wait in its queue: they are WRITTEN after the answer took effect.  D2:<n>: the same around the
+// answer to SET_PROTOCOL_VERSION.  If Connect has failed meanwhile the reader stops for good.
+// D1:<pattern> (letters k, r) is the general form (D1:<n> = k…k): k = send a KEEPALIVE, r = read one
+// whole frame (the acknowledgement under way), all before the answer goes out.  Whenever a write of
+// the client must be under way (a KEEPALIVE sent while none was outstanding; a frame read while
+// more were outstanding) the reader takes its first byte — the one with the version bits — so
+// that "the write loop has taken and stamped the next acknowledgement" is observed, not timed.
 // LA: the traffic after negotiation starts with a KEEPALIVE (see below).
 // V<g><n><l>: header version bits (0..7 each) the reader puts on its greeting, on what it sends
 // during negotiation (replies, keep-alives) and on what it sends afterwards (default 1, 2, and
@@ -58,12 +71,15 @@ import (
 //
 // Answer line:
 //
-//	<sid> <proceeds|fails|panic|hang> <cver> <frames before the outcome> <frames after> <req1> <req2> <ack> <early> <cver at the end>
+//	<sid> <proceeds|fails|panic|hang> <cver> <frames before the outcome> <frames after> <req1> <req2> <ack> <early> <cver at the end> h<held>
 //
 // "before": for a Connect that proceeds, the frames the reader had read when it sent its last answer
 // to a negotiation message (none without negotiation); otherwise all frames read when Connect ended.
 // frames ::= - | f,f,…  f = <version bits>:<type>:<hex payload>.  cver = Client.version when
-// Connect proceeded / returned; the last field is Client.version at the end of the session.  req1/req2 = ok|err|- ; ack = ok|missing|-.
+// Connect proceeded / returned; then Client.version at the end of the session.  req1/req2 = ok|err|- ; ack = ok|missing|-.
+// held = number of KEEPALIVEs the reader sent, without reading, together with its LAST negotiation
+// answer (D1/D2): their acknowledgements are the first frames "after"; the write of the first of
+// them was under way when that answer was sent.
 //
 // The scripted reader builds and parses frames with its own code (c06Put/c06Read).
 
@@ -131,23 +147,29 @@ type c06Peer struct {
 	r1, r2         string
 	closeOnSilence bool
 	k1, k2         bool
-	vg, vn, vl     int           // header versions: greeting, during negotiation, afterwards (-1: echo / 1)
-	early          func()        // starts the early caller (once)
-	earlyAt        int           // 1: when GET_SUPPORTED_VERSION arrives, 2: when SET_PROTOCOL_VERSION arrives
-	appReact       []string      // answers to the application requests of a traffic script, in order
-	appSeen        chan struct{} // one token per application request of a traffic script read
-	replyType2     int           // if non-zero, GET_READER_CONFIG is answered with a header-only frame of this type
+	d1, d2         string                  // what a reader that has stopped reading does before its answer to the query / the switch (k: KEEPALIVE, r: read one frame)
+	settled        func(mayGoOn bool) bool // waits until the client has acted on the answer just sent; false: Connect has failed
+	pre            []byte                  // bytes of the next frame already taken off the connection (read loop only)
+	vg, vn, vl     int                     // header versions: greeting, during negotiation, afterwards (-1: echo / 1)
+	early          func()                  // starts the early caller (once)
+	earlyAt        int                     // 1: when GET_SUPPORTED_VERSION arrives, 2: when SET_PROTOCOL_VERSION arrives
+	appReact       []string                // answers to the application requests of a traffic script, in order
+	appSeen        chan struct{}           // one token per application request of a traffic script read
+	replyType2     int                     // if non-zero, GET_READER_CONFIG is answered with a header-only frame of this type
 
 	pmu       sync.Mutex
 	pendingID uint32
 	pending   func()
 
-	mu     sync.Mutex
-	wmu    sync.Mutex
-	frames []c06Frame
-	marker int // number of frames read when the reader last answered a negotiation message
-	acks   chan c06Frame
-	done   chan struct{}
+	mu      sync.Mutex
+	wmu     sync.Mutex
+	frames  []c06Frame
+	marker  int  // number of frames read when the reader last answered a negotiation message
+	held    int  // KEEPALIVEs sent without reading together with that answer
+	holding int  // KEEPALIVEs sent without reading since the reader stopped reading
+	stop    bool // set by the read loop itself: Connect failed while the reader was not reading
+	acks    chan c06Frame
+	done    chan struct{}
 }
 
 func (p *c06Peer) seen() []c06Frame {
@@ -171,6 +193,7 @@ const c06Settle = 1500 * time.Microsecond
 func (p *c06Peer) react(f c06Frame, r string, respType int, versions bool) {
 	p.mu.Lock()
 	p.marker = len(p.frames)
+	p.held, p.holding = p.holding, 0
 	p.mu.Unlock()
 	parts := strings.Split(r, ":")
 	num := func(i int) int { n, _ := strconv.Atoi(parts[i]); return n }
@@ -217,6 +240,11 @@ func (p *c06Peer) maybeKeepAlive(ka bool, id uint32, stage int, answer func()) {
 	}
 	// the answer goes out c06Settle later, from a timer goroutine: the read loop keeps reading
 	later := func() { time.AfterFunc(c06Settle, answer) }
+	if d := map[int]string{1: p.d1, 2: p.d2}[stage]; d != "" {
+		// a reader that stops reading: runs in the read loop itself (maybeKeepAlive and the
+		// runPending that follows the acknowledgement are both called from it)
+		later = func() { p.stall(stage, d, answer) }
+	}
 	if !ka {
 		later()
 		return
@@ -225,7 +253,74 @@ func (p *c06Peer) maybeKeepAlive(ka bool, id uint32, stage int, answer func()) {
 	p.pendingID, p.pending = id, later
 	p.pmu.Unlock()
 	p.put(p.vn, 62, id, nil)
-	time.AfterFunc(time.Second, func() { p.runPending(id) })
+	time.AfterFunc(time.Second, func() {
+		// the acknowledgement never came: answer anyway (without stalling: this is not the read loop)
+		p.pmu.Lock()
+		if p.pending != nil && p.pendingID == id {
+			p.pending = func() { time.AfterFunc(c06Settle, answer) }
+		}
+		p.pmu.Unlock()
+		p.runPending(id)
+	})
+}
+
+// c06HeldID: ids of the KEEPALIVEs a stalled reader sends (stage 1: 911.., stage 2: 921..)
+func c06HeldID(stage, i int) uint32 { return uint32(900 + 10*stage + 1 + i) }
+
+// stall: d KEEPALIVEs and the answer go out while nothing is read; reading resumes (by returning
+// to the read loop) when the client has acted on the answer.  That the client's write loop has
+// begun to write the first acknowledgement before the answer goes out is OBSERVED, not timed: the
+// reader takes the first byte of whatever the client writes next (the byte with the version bits)
+// and leaves the rest — on net.Pipe the client's Write stays blocked until the rest is read too.
+func (p *c06Peer) stall(stage int, pattern string, answer func()) {
+	time.Sleep(c06Settle)
+	sent, outstanding := 0, 0
+	underWay := func() { // a write of the client must be under way: take its first byte
+		first := make([]byte, 1)
+		if _, err := io.ReadFull(p.conn, first); err == nil {
+			p.pre = first
+		}
+	}
+	for _, c := range pattern {
+		switch c {
+		case 'k':
+			p.put(p.vn, 62, c06HeldID(stage, sent), nil)
+			sent++
+			outstanding++
+			if outstanding == 1 {
+				underWay()
+			}
+		case 'r':
+			if outstanding == 0 {
+				continue
+			}
+			f, err := c06Read(io.MultiReader(bytes.NewReader(p.pre), p.conn))
+			p.pre = nil
+			if err != nil {
+				p.stop = true
+				return
+			}
+			p.mu.Lock()
+			p.frames = append(p.frames, f)
+			p.mu.Unlock()
+			outstanding--
+			if outstanding > 0 {
+				underWay()
+			}
+		}
+	}
+	d := outstanding
+	p.mu.Lock()
+	p.holding = d
+	p.mu.Unlock()
+	answer()
+	// after the answer to the query another negotiation message may follow only if the answer was
+	// a successful response; in every other case (and after the answer to the switch) the client
+	// can only go on or fail, and that is waited for
+	mayGoOn := stage == 1 && strings.HasPrefix(p.r1, "R:") && strings.HasSuffix(p.r1, ":0")
+	if p.settled != nil && !p.settled(mayGoOn) {
+		p.stop = true
+	}
 }
 
 func (p *c06Peer) runPending(id uint32) bool {
@@ -255,7 +350,14 @@ func (p *c06Peer) run() {
 	ren, _ := hex.DecodeString("00f60016" + "0080000c" + "0005a738133c2c9e" + "01000006" + "0000")
 	p.put(p.vg, 63, 0, ren)
 	for {
-		f, err := c06Read(p.conn)
+		if p.stop {
+			return
+		}
+		var rd io.Reader = p.conn
+		if len(p.pre) > 0 {
+			rd, p.pre = io.MultiReader(bytes.NewReader(p.pre), p.conn), nil
+		}
+		f, err := c06Read(rd)
 		if err != nil {
 			return
 		}
@@ -270,6 +372,9 @@ func (p *c06Peer) run() {
 			f := f
 			p.maybeKeepAlive(p.k2, 802, 2, func() { p.react(f, p.r2, 57, false) })
 		case 72:
+			if f.id > 900 && f.id < 930 {
+				break // acknowledgement of a KEEPALIVE sent while the reader was not reading: recorded, nobody waits for it
+			}
 			if !p.runPending(f.id) {
 				select {
 				case p.acks <- f:
@@ -326,6 +431,13 @@ func c06Session(line string) string {
 	timeout := time.Duration(0)
 	closeOnSilence := false
 	k1, k2, ackFirst := false, false, false
+	d1, d2 := "", ""
+	pattern := func(o string) string {
+		if n, err := strconv.Atoi(o); err == nil {
+			return strings.Repeat("k", n)
+		}
+		return o
+	}
 	earlyKind, earlyAt := "", 0
 	vg, vn, vl := 1, 2, -1
 	var traffic []string
@@ -343,6 +455,12 @@ func c06Session(line string) string {
 		if strings.HasPrefix(o, "P=") {
 			traffic = strings.Split(o[2:], ",")
 		}
+		if strings.HasPrefix(o, "D1:") {
+			d1 = pattern(o[3:])
+		}
+		if strings.HasPrefix(o, "D2:") {
+			d2 = pattern(o[3:])
+		}
 		if len(o) == 4 && o[0] == 'V' {
 			vg, vn, vl = int(o[1]-'0'), int(o[2]-'0'), int(o[3]-'0')
 		}
@@ -357,7 +475,7 @@ func c06Session(line string) string {
 	cConn, pConn := net.Pipe()
 	// nothing the scripted reader does may block for good, whatever the client does
 	_ = pConn.SetDeadline(time.Now().Add(10 * time.Second))
-	peer := &c06Peer{conn: pConn, r1: f[2], r2: f[3], closeOnSilence: closeOnSilence, k1: k1, k2: k2, vg: vg, vn: vn, vl: vl,
+	peer := &c06Peer{conn: pConn, r1: f[2], r2: f[3], closeOnSilence: closeOnSilence, k1: k1, k2: k2, d1: d1, d2: d2, vg: vg, vn: vn, vl: vl,
 		acks: make(chan c06Frame, 4), done: make(chan struct{}), appSeen: make(chan struct{}, 64)}
 
 	opts := []ClientOpt{WithVersion(VersionNum(cmax)), WithLogger(nil)}
@@ -398,10 +516,51 @@ func c06Session(line string) string {
 			time.Sleep(c06Settle) // let it reach the gate
 		}
 	}
+	connReturned := make(chan struct{})
+	// a reader that has stopped reading waits here after an answer: until the client has acted
+	// on it.  Connect going on (ready) or returning is final; an answer that leads to the next
+	// negotiation message shows, if at all, as a change of Client.version (negotiate assigns it
+	// before it sends SET_PROTOCOL_VERSION, which cannot be written while the reader does not
+	// read); if the version stays what it was, the held acknowledgements carry the same version
+	// whenever they are stamped, and 25 ms are waited.  Where no further negotiation message can
+	// follow (mayGoOn false) only ready / Connect's return is waited for.
+	peer.settled = func(mayGoOn bool) bool {
+		v0 := cmax
+		wait := 3 * time.Second
+		if mayGoOn {
+			wait = 25 * time.Millisecond
+		}
+		deadline := time.After(wait)
+		tick := time.NewTicker(100 * time.Microsecond)
+		defer tick.Stop()
+		for {
+			select {
+			case <-connReturned:
+				return false
+			case <-client.ready:
+				return true
+			case <-deadline:
+				return true
+			case <-tick.C:
+				if v := int(client.version); mayGoOn && v != v0 {
+					// the version has been assigned; leave the client the time to go on to
+					// whatever follows (ready, or handing over SET_PROTOCOL_VERSION)
+					select {
+					case <-connReturned:
+						return false
+					case <-client.ready:
+					case <-time.After(c06Settle):
+					}
+					return true
+				}
+			}
+		}
+	}
 	go peer.run()
 
 	connDone := make(chan string, 1)
 	go func() {
+		defer close(connReturned)
 		defer func() {
 			if r := recover(); r != nil {
 				connDone <- "panic"
@@ -432,12 +591,14 @@ func c06Session(line string) string {
 	}
 	before := peer.seen()
 	cverNeg := int(client.version) // ready is closed or Connect has returned: negotiate's write happened before
+	held := 0
 	if outcome == "proceeds" {
 		// negotiation is over, on the wire, when the reader has sent its last answer to a
 		// negotiation message: what it had read by then came before, whatever it reads later came
 		// after (without negotiation: everything comes after)
 		peer.mu.Lock()
 		before = before[:peer.marker]
+		held = peer.held
 		peer.mu.Unlock()
 	}
 
@@ -507,8 +668,8 @@ afterTraffic:
 	}
 	// Connect has returned or the client is closed and both loops have lost their connection
 	cver := int(client.version)
-	return fmt.Sprintf("%s %s %d %s %s %s %s %s %s %d", sid, outcome, cverNeg, c06Frames(before),
-		c06Frames(all[len(before):]), req1, req2, ack, early, cver)
+	return fmt.Sprintf("%s %s %d %s %s %s %s %s %s %d h%d", sid, outcome, cverNeg, c06Frames(before),
+		c06Frames(all[len(before):]), req1, req2, ack, early, cver, held)
 }
 
 // c06Traffic runs a traffic script (see the header comment); returns the number of steps done
